@@ -7,22 +7,20 @@ import Cte.Model.Bdl
 namespace Cte.Aux
 open Cte.Bdl
 
-/-- `str::split(c)`: all pieces, never empty -/
-def splitChar (c : Char) : Str → List Str
+/-- pieces between the characters that satisfy `p`; never empty (`"" ↦ [""]`) -/
+def splitBy (p : Char → Bool) : Str → List Str
   | [] => [[]]
   | x :: t =>
-    if x = c then [] :: splitChar c t
-    else match splitChar c t with
+    if p x then [] :: splitBy p t
+    else match splitBy p t with
       | h :: r => (x :: h) :: r
       | [] => [[x]]
 
+/-- `str::split(c)` -/
+def splitChar (c : Char) (s : Str) : List Str := splitBy (· == c) s
+
 /-- `str::split_whitespace` -/
-def splitWs (s : Str) : List Str :=
-  (go [] s).filter (fun w => !w.isEmpty)
-where
-  go (cur : Str) : Str → List Str
-    | [] => [cur.reverse]
-    | c :: t => if isWs c then cur.reverse :: go [] t else go (c :: cur) t
+def splitWs (s : Str) : List Str := (splitBy isWs s).filter (fun w => !w.isEmpty)
 
 /-- `v.replace(',', ".").parse::<f32>()` -/
 def commaNum (s : Str) : Option Num := parseF32 (s.map (fun c => if c = ',' then '.' else c))
